@@ -695,9 +695,20 @@ func (de *dEval) runC14() {
 		if f.Kind == "set" {
 			hi = f.Pos + int64(len(f.Data))
 		}
-		inPlace := (f.Kind == "flip" || f.Kind == "set") && lo >= 8
+		// in-place overwrite; inside the 8-byte file header no record is overwritten (so nothing
+		// "must error", and Open may fail when it reads that header), but calls answered
+		// entirely from other segment files must still be unchanged
+		overwrite := f.Kind == "flip" || f.Kind == "set"
+		headerDamage := overwrite && lo < 8
+		inPlace := overwrite
 		tag := f.Kind
-		de.classes[fmt.Sprintf("%s|%s|seg%d", f.Kind, map[bool]string{true: "in-record", false: "other"}[inPlace], indexOf(logs, f.File))] = true
+		cls := "other"
+		if headerDamage {
+			cls = "in-header"
+		} else if inPlace {
+			cls = "in-record"
+		}
+		de.classes[fmt.Sprintf("%s|%s|seg%d", f.Kind, cls, indexOf(logs, f.File))] = true
 		a0 := allocBytes()
 		var l klevdb.Log
 		oerr := guard(func() error {
@@ -712,7 +723,7 @@ func (de *dEval) runC14() {
 		if oerr != nil {
 			if _, ok := oerr.(*panicErr); ok {
 				de.report(f, "Open|"+tag+"|panic", "Open panicked: %v", oerr)
-			} else if inPlace {
+			} else if inPlace && !headerDamage {
 				de.report(f, "Open|"+tag+"|failed", "Open with default options failed after an in-place overwrite inside a record: %v", oerr)
 			}
 			return
@@ -746,7 +757,7 @@ func (de *dEval) runC14() {
 				rl := loc[x.Off]
 				if rl.File == f.File {
 					otherFilesOnly = false
-					if rl.Pos < hi && lo < rl.End {
+					if !headerDamage && rl.Pos < hi && lo < rl.End {
 						includes = true
 					}
 				}
@@ -756,7 +767,9 @@ func (de *dEval) runC14() {
 				// below the requested offset to learn their offsets: "may do either"
 				either := false
 				for off, rl := range loc {
-					if rl.File == f.File && rl.Pos < hi && lo < rl.End && off < b.Off && keyEq(m.Published[off].Key, b.Key) {
+					// with a damaged file header every record of the file is unreadable
+					hit := rl.File == f.File && (headerDamage || (rl.Pos < hi && lo < rl.End))
+					if hit && off < b.Off && keyEq(m.Published[off].Key, b.Key) {
 						either = true
 					}
 				}
